@@ -53,6 +53,12 @@ static int rd_close(void *ck) {
     g_rstats.closes++;
     delete (ReadCookie *)ck;
     g_read_fp = nullptr;
+    if (g_script.close_errno) {
+        g_rstats.close_error_fired = true;
+        sim::fault_fired("file_close_error");
+        errno = g_script.close_errno;
+        return -1;
+    }
     return 0;
 }
 
